@@ -416,7 +416,10 @@ func binaryStage(r *ev.Run, scratch string) {
 		}
 		return out
 	}
-	rounds := r.N(6, 30)
+	rounds := r.N(4, 30)
+	if !r.Thorough() {
+		docs = docs[:1]
+	}
 	for di, doc := range docs {
 		id := strings.TrimPrefix(doc, td+"/")
 		refDir := filepath.Join(scratch, fmt.Sprintf("bin-ref-%d", di))
